@@ -5,7 +5,12 @@ A history (JSON-able) is
      "events": [["M", t, code, obs|None, body, last] |      pipe.add_response(msg, is_last=last)
                 ["X", t, k]                           |      pipe.add_exception(EXC[k])
                 ["OC", t] | ["RC", t]],                      observation.cancel() / response.cancel()
-     "iter": None | {"mode": "attentive"|"lazy", "start": i}}   async-iterator consumer
+     "iter": None | {"mode": "attentive"|"lazy"|"busy", "start": i, "work": k}}   async-iterator consumer
+         (`async for` over request.observation, opened just before event `start`): "attentive" gets
+         three event-loop iterations after every event, "lazy" is not scheduled at all until all
+         events are in, "busy" gets one iteration after every event and spends `work` iterations in
+         its loop body per item — so that events arrive while it is suspended in `__anext__`,
+         while a wake-up is due, and while it is busy elsewhere
 `t` is in ticks of 2**-20 s on the harness clock that replaces `time` as seen from
 `aiocoap.protocol`.  Everything the Request does to the outside is recorded per event, in order:
 the response future completing, observation callbacks / errbacks (with the very objects handed
@@ -96,10 +101,14 @@ class Bench:
         iter_out = []
         consumer = None
 
+        work = (it or {}).get("work", 0)
+
         async def consume():
             try:
                 async for m in req.observation:
                     iter_out.append(("item", m))
+                    for _ in range(work):
+                        await asyncio.sleep(0)
                 iter_out.append(("stop",))
             except Exception as e:
                 iter_out.append(("raise", e))
@@ -136,8 +145,8 @@ class Bench:
                     cur.insert(0, ("rexc", req.response.exception()))
                 else:
                     cur.insert(0, ("resp", req.response.result()))
-            if consumer is not None and it["mode"] == "attentive":
-                for _ in range(3):
+            if consumer is not None and it["mode"] != "lazy":
+                for _ in range(3 if it["mode"] == "attentive" else 1):
                     await asyncio.sleep(0)
             groups.append(([self.delivery_str(d) for d in cur], state["ended"] > 0))
             raw.append((obj, list(cur), state["ended"]))
@@ -145,7 +154,7 @@ class Bench:
         if it is not None and consumer is None:
             consumer = loop.create_task(consume())
         if consumer is not None:
-            for _ in range(2 * len(h["events"]) + 6):
+            for _ in range((2 + work) * (len(h["events"]) + 3)):
                 if consumer.done():
                     break
                 await asyncio.sleep(0)
@@ -160,7 +169,9 @@ class Bench:
             impl = " ".join(f"{','.join(ds) or '.'}/{'E' if ended else '-'}"
                             for ds, ended in groups) or "-"
         return {"groups": groups, "impl": impl, "raw": raw, "iter": iter_out,
-                "escaped": escaped, "ended_calls": state["ended"]}
+                "escaped": escaped, "ended_calls": state["ended"],
+                "response": ("cancelled" if req.response.cancelled() else
+                             "done" if req.response.done() else "pending")}
 
     @staticmethod
     def exc_name(e):
@@ -212,6 +223,11 @@ def rfc_fresher(v1, t1, v2, t2):
     return t2 > t1 + RFC_RESET_TICKS
 
 
+def same_exc(got, sent):
+    """a future that was given an exception *class* raises an instance of it"""
+    return isinstance(got, sent) if isinstance(sent, type) else got is sent
+
+
 def oracle_history(h, res):
     """-> (verdict, key) ; ("", None) when the property holds on this observation"""
     if any(ev[0] in ("OC", "RC") for ev in h["events"]):
@@ -240,10 +256,21 @@ def oracle_history(h, res):
                 rest = dels[1:]
                 no_obs = ev[3] is None or ev[5]
             else:
-                if not dels or dels[0][0] != "rexc":
+                if not dels or dels[0][0] != "rexc" or not same_exc(dels[0][1], obj):
                     return "transport failure did not fail the response future", "first-response"
                 rest = dels[1:]
-                no_obs = True
+                rk = [d[0] for d in rest]
+                if h["observe"]:
+                    # "... and with a network error on transport failure"
+                    if len(rest) != 1 or rest[0][0] != "eb" or rest[0][1] is not obj:
+                        got = [Bench.exc_name(d[1]) if d[0] == "eb" else d[0] for d in rest]
+                        return (f"transport failure of the initial request: expected the observation "
+                                f"to end with that error, got {got}"), "first-network-error"
+                    errbacks += 1
+                elif [k for k in rk if k != "stop"]:
+                    return f"plain request delivered {rk}", "plain-request"
+                over = True
+                continue
             rk = [d[0] for d in rest]
             if not h["observe"]:
                 if [k for k in rk if k != "stop"]:
@@ -319,13 +346,32 @@ def oracle_history(h, res):
 
 
 def oracle_app_events(h, res):
-    """application cancelled: nothing is handed over afterwards, at most one termination signal"""
-    cancelled = False
+    """the application cancelled the observation (`observation.cancel()`) or the request
+    (`response.cancel()`): an observation cancelled by the application is over — afterwards nothing
+    is signalled to its listeners and nothing is raised into whoever delivers an event; the response
+    future still completes with the first response / the transport's error unless it was cancelled
+    itself; at most one termination signal"""
+    for i, n in res["escaped"]:
+        if h["events"][i][0] in ("M", "X"):
+            return (f"{n} raised into the deliverer of event {i} ({h['events'][i][0]})"), "escaped-after-cancel"
+    obs_cancelled = resp_cancelled = False
+    first_pipe = True
     for i, (ev, (obj, dels, ended)) in enumerate(zip(h["events"], res["raw"])):
-        if cancelled and [d for d in dels if d[0] in ("cb", "eb")]:
+        if obs_cancelled and [d for d in dels if d[0] in ("cb", "eb")]:
             return f"delivery {[d[0] for d in dels]} after the application cancelled", "after-cancel"
-        if ev[0] == "OC" or (ev[0] == "RC" and i == 0):
-            cancelled = True
+        if ev[0] in ("M", "X") and first_pipe:
+            first_pipe = False
+            if not resp_cancelled:
+                ok = (dels and ((ev[0] == "M" and dels[0][0] == "resp" and dels[0][1] is obj) or
+                                (ev[0] == "X" and dels[0][0] == "rexc" and same_exc(dels[0][1], obj))))
+                if not ok:
+                    return ("the first event did not complete the response future "
+                            f"({[d[0] for d in dels]})"), "first-response"
+        if ev[0] == "OC":
+            obs_cancelled = True
+        if ev[0] == "RC" and first_pipe:
+            resp_cancelled = True
+            obs_cancelled = True       # nobody is left to receive anything
     total_eb = sum(1 for (_, dels, _) in res["raw"] for d in dels if d[0] == "eb")
     if total_eb > 1:
         return f"{total_eb} termination signals", "end-count"
@@ -333,25 +379,44 @@ def oracle_app_events(h, res):
 
 
 def oracle_iterator(h, res):
-    """the async iterator hands out a subsequence of what the callbacks got (all of it when the
-    consumer keeps up) and ends the way the observation ended"""
+    """`async for` over request.observation, whatever the consumer's pace: it is handed a
+    subsequence of what the observation's callbacks got; a consumer that keeps iterating obtains the
+    latest of them — in particular the final response — before it sees the end; the end is
+    StopAsyncIteration for NotObservable / ObservationCancelled and the exception itself for a
+    transport failure; nothing comes after the end.  An iteration opened late starts from the latest
+    response the observation had at that moment."""
     it = h.get("iter")
     if not it or not h["observe"] or not res["iter"]:
         return "", None
-    cbs = [d[1] for (_, dels, _) in res["raw"] for d in dels if d[0] == "cb"]
+    before = [d[1] for idx, (_, dels, _) in enumerate(res["raw"]) if idx < it["start"]
+              for d in dels if d[0] == "cb"]
+    after = [d[1] for idx, (_, dels, _) in enumerate(res["raw"]) if idx >= it["start"]
+             for d in dels if d[0] == "cb"]
+    fed = before[-1:] + after
     ebs = [d[1] for (_, dels, _) in res["raw"] for d in dels if d[0] == "eb"]
-    items = [x[1] for x in res["iter"] if x[0] == "item"]
-    tail = [x for x in res["iter"] if x[0] != "item"]
+    kinds = [x[0] for x in res["iter"]]
+    n_items = 0
+    while n_items < len(kinds) and kinds[n_items] == "item":
+        n_items += 1
+    if "item" in kinds[n_items:]:
+        return f"async iterator handed out an item after {kinds[n_items]}", "iter-after-end"
+    items = [x[1] for x in res["iter"][:n_items]]
+    tail = res["iter"][n_items:]
     # subsequence (by identity)
     j = 0
     for m in items:
-        while j < len(cbs) and cbs[j] is not m:
+        while j < len(fed) and fed[j] is not m:
             j += 1
-        if j == len(cbs):
+        if j == len(fed):
             return "async iterator yielded something the callbacks did not get, or out of order", "iter-order"
         j += 1
-    if it["mode"] == "attentive" and it["start"] == 0 and len(items) != len(cbs):
-        return (f"attentive async iterator got {len(items)} of {len(cbs)} notifications"), "iter-lost"
+    if it["mode"] == "attentive" and it["start"] == 0 and len(items) != len(fed):
+        return (f"attentive async iterator got {len(items)} of {len(fed)} notifications"), "iter-lost"
+    if fed and (not items or items[-1] is not fed[-1]):
+        what = "final response" if fed[-1].opt.observe is None else "latest notification"
+        return (f"the {what} ({int(fed[-1].code)}, Observe {fed[-1].opt.observe}) was never handed "
+                f"to a consumer that kept iterating ({it['mode']}): got "
+                f"{[(int(m.code), m.opt.observe) for m in items]} then {[x[0] for x in tail]}"), "iter-latest-lost"
     how = tail[0][0] if tail else "?"
     if not ebs:
         if how != "pending":
